@@ -211,7 +211,7 @@ def pass (L : Lits α) (P : Params α) (s : State α) (o : PassOracle α) : Sum 
     match limits L P s with
     | .inr r => .inr r
     | .inl (s, hSigned, xNew) =>
-      if Num.eqb (s.x + L.tenth * Num.abs hSigned) s.x then .inr (result P s .stepSizeTooSmall s.cnt)
+      if Num.eqb (s.x + L.tenth * hSigned) s.x then .inr (result P s .stepSizeTooSmall s.cnt)
       else
         let cnt := { s.cnt with total := s.cnt.total + 1 }
         let c := hSigned / alpha L s.order
